@@ -597,6 +597,9 @@ Definition run_output_path (input : ustring) (output : option ustring) : string 
 
 Definition show_impl (i : timpl) : string :=
   match i with IFromStr => "FromStr" | IDisplay => "Display" | IDefault => "Default" end.
+(* the impl set the documented rule gives for a macro trait list (builder side of the TypeAndImpls tie) *)
+Definition run_impls (specs : list impl_spec) : string :=
+  String.concat "/" (map show_impl (impls_of_specs specs)).
 Definition show_policy (p : policy) : string :=
   match p with Generate => "Generate" | Allow => "Allow" | Deny => "Deny" end.
 
